@@ -97,11 +97,11 @@ class FanOut:
             return False
         if isinstance(lp.coll, CollV) and lp.coll.preds:
             return False
-        txt = lp.iter_text.replace(" ", "")
-        chain = txt.split(".")
+        it = getattr(lp.node, "iter", None)
+        chain = attr_chain(it) if it is not None else None
+        if not chain:
+            return False  # sliced, filtered, conditional or computed iterable
         last = chain[-1]
-        if not re.match(r"^\w+$", last):
-            return False
         return any(last == cont for _p, cont, _c, many in spec.TREE if many == "many")
 
 
